@@ -142,8 +142,15 @@ func (v *IndexVamana) insertUpdateDelete(ctx context.Context, pointQueue <-chan 
 	 * on smaller graphs this may lead to disconnected nodes. We opt for going
 	 * correctness initially. So to prune all the inbound edges to remove these
 	 * nodes from the graph, we collect them and do a single scan. */
-	updatedPoints := make([]IndexVectorChange, 0)
-	deletedPointsIds := make([]uint64, 0)
+	/* A batch may touch the same point more than once, e.g. a vector update
+	 * followed by the removal of the vector, or a new vector that is changed
+	 * again. The last operation on a point decides what happens to it, so
+	 * updates and deletes are keyed by point id and a later operation
+	 * replaces an earlier one. Points handed to the insert workers in this
+	 * batch count as existing even if a worker has not stored them yet. */
+	updatedPoints := make(map[uint64]IndexVectorChange)
+	deletedPoints := make(map[uint64]struct{})
+	insertedPoints := make(map[uint64]struct{})
 	toRemoveInBoundNodeIds := make(map[uint64]struct{})
 	// ---------------------------
 	insertQ, distributeErrC := utils.TransformWithContext(ctx, pointQueue, func(point IndexVectorChange) (out IndexVectorChange, skip bool, err error) {
@@ -157,6 +164,9 @@ func (v *IndexVamana) insertUpdateDelete(ctx context.Context, pointQueue <-chan 
 		}
 		// What operation is this?
 		exists := v.vecStore.Exists(point.Id)
+		if _, ok := insertedPoints[point.Id]; ok {
+			exists = true
+		}
 		switch {
 		case !exists && point.Vector == nil:
 			// Skip, nothing to do
@@ -166,16 +176,19 @@ func (v *IndexVamana) insertUpdateDelete(ctx context.Context, pointQueue <-chan 
 			if point.Id > v.maxNodeId.Load() {
 				v.maxNodeId.Store(point.Id)
 			}
+			insertedPoints[point.Id] = struct{}{}
 			skip = false
 			out = point
 		case exists && point.Vector != nil:
 			// Update
-			updatedPoints = append(updatedPoints, point)
+			updatedPoints[point.Id] = point
+			delete(deletedPoints, point.Id)
 			toRemoveInBoundNodeIds[point.Id] = struct{}{}
 			skip = true
 		case exists && point.Vector == nil:
 			// Delete
-			deletedPointsIds = append(deletedPointsIds, point.Id)
+			deletedPoints[point.Id] = struct{}{}
+			delete(updatedPoints, point.Id)
 			toRemoveInBoundNodeIds[point.Id] = struct{}{}
 			skip = true
 		default:
@@ -230,6 +243,10 @@ func (v *IndexVamana) insertUpdateDelete(ctx context.Context, pointQueue <-chan 
 	 * potentially happening. Again we don't expect to have large number of
 	 * deletions so this is single threaded. When a node is marked, it then
 	 * gets deleted during a flush. */
+	deletedPointsIds := make([]uint64, 0, len(deletedPoints))
+	for id := range deletedPoints {
+		deletedPointsIds = append(deletedPointsIds, id)
+	}
 	if err := v.vecStore.Delete(deletedPointsIds...); err != nil {
 		return fmt.Errorf("could not delete points from vector store: %w", err)
 	}
